@@ -202,7 +202,26 @@ const (
 	rkOpaque               // anything else: unknown number of iterations, unknown elements
 )
 
+// restoreGhosts gives the loop ghosts of an enclosing loop their values back when an inner loop is left.
+func restoreGhosts(saved map[string]string, k func(*State)) func(*State) {
+	return func(st *State) {
+		for _, n := range []string{"visited", "done", "rest", "idx", "visited'", "done'", "rest'", "allocTop@loop"} {
+			if v, ok := saved[n]; ok {
+				st.ghosts[n] = v
+			} else {
+				delete(st.ghosts, n)
+			}
+		}
+		k(st)
+	}
+}
+
 func (e *Exec) execRange(s *ast.RangeStmt, label string, st *State, ctx *Ctx, k func(*State)) {
+	saved := map[string]string{}
+	for n, v := range st.ghosts {
+		saved[n] = v
+	}
+	k = restoreGhosts(saved, k)
 	info := e.info(ctx)
 	li := e.loopSpecFor(s, ctx)
 	t := info.TypeOf(s.X)
@@ -440,6 +459,11 @@ func (e *Exec) execRange(s *ast.RangeStmt, label string, st *State, ctx *Ctx, k 
 }
 
 func (e *Exec) execFor(s *ast.ForStmt, label string, st *State, ctx *Ctx, k func(*State)) {
+	saved := map[string]string{}
+	for n, v := range st.ghosts {
+		saved[n] = v
+	}
+	k = restoreGhosts(saved, k)
 	info := e.info(ctx)
 	li := e.loopSpecFor(s, ctx)
 	run := func(st *State) {
